@@ -107,7 +107,7 @@ struct TtxLine { uint8_t b[42]; };
 struct Frame { uint8_t f1[2], f2[2]; std::vector<TtxLine> ttx; double ts = 0; };
 static uint8_t par(int c) { return tx::odd_parity((uint8_t)c); }
 
-static std::vector<Frame> make_caption_stream(uint64_t seed, int nframes, bool with_xds = false) {
+static std::vector<Frame> make_caption_stream(uint64_t seed, int nframes, bool with_xds = false, bool with_t2 = false) {
   std::vector<std::pair<int, int>> pr[2];
   Rng r(seed, "caption");
   for (int f = 0; f < 2; f++) {
@@ -149,7 +149,12 @@ static std::vector<Frame> make_caption_stream(uint64_t seed, int nframes, bool w
         case 0: case 1: ctl(ch2, misc, 0x20); ctl(ch2, 0x11 + (int)r.below(7), 0x40 + (int)r.below(32)); text(2 + (int)r.below(14)); ctl(ch2, misc, 0x2F); break;  // pop-on: RCL PAC text EOC
         case 2: case 3: ctl(ch2, misc, 0x25 + (int)r.below(3)); ctl(ch2, 0x14, 0x60 + (int)r.below(16)); text(4 + (int)r.below(20)); ctl(ch2, misc, 0x2D); break;   // roll-up: RUx PAC text CR
         case 4: ctl(ch2, misc, r.chance(1, 2) ? 0x2C : 0x2E); break;                                                                                                 // EDM / ENM
-        default: for (int i = (int)r.below(4); i >= 0; i--) v.push_back({0, 0}); break;
+        default:
+          // field 1 also carries text channel T2 now and then (resume text display, a few words, carriage returns - also two
+          // in a row): with a TRIGGER handler registered the decoder runs its ITV link separator on T2 from inside vbi_decode()
+          if (f == 0 && with_t2 && r.chance(1, 2)) { ctl(1, 0x14, 0x2B); text(2 + (int)r.below(10)); ctl(1, 0x14, 0x2D); if (r.chance(1, 2)) ctl(1, 0x14, 0x2D); text(2 + (int)r.below(6)); ctl(1, 0x14, 0x2D); break; }
+          for (int i = (int)r.below(4); i >= 0; i--) v.push_back({0, 0});
+          break;
       }
     }
   }
@@ -248,6 +253,7 @@ struct C20 : World {
       // Teletext on the same decoder (half of the runs), with damaged / foreign headers and dropped frames
       p.knobs["ttx_pct"] = r.chance(1, 2) ? 0 : 20 + (int64_t)r.below(81);
       p.knobs["ttx_fault_pct"] = r.chance(1, 4) ? 0 : 2 + (int64_t)r.below(30);
+      p.knobs["t2"] = r.chance(1, 2);     // text channel T2 on field 1 and a TRIGGER handler (ITV link separator inside vbi_decode())
       p.knobs["gap_pct"] = r.chance(1, 2) ? 0 : 1 + (int64_t)r.below(6);   // dropped frames (also without Teletext)
       int nf = (int)r.range(1, 2);
       for (int t = 0; t < nf; t++) {
@@ -303,7 +309,7 @@ struct C20 : World {
   }
   static vbi_decoder* cap_new_decoder() {
     vbi_decoder* d = vbi_decoder_new();
-    if (d) vbi_event_handler_register(d, VBI_EVENT_CAPTION | VBI_EVENT_TTX_PAGE | VBI_EVENT_NETWORK | VBI_EVENT_ASPECT | VBI_EVENT_PROG_INFO, cap_handler, nullptr);
+    if (d) vbi_event_handler_register(d, VBI_EVENT_CAPTION | VBI_EVENT_TTX_PAGE | VBI_EVENT_NETWORK | VBI_EVENT_ASPECT | VBI_EVENT_PROG_INFO | (gc && gc->plan.knob("t2", 0) ? VBI_EVENT_TRIGGER : 0), cap_handler, nullptr);
     return d;
   }
   static void cap_feed(CapRun& r, int i) {
@@ -330,7 +336,7 @@ struct C20 : World {
 
   void run_caption(const Plan& plan, RunCtx& ctx) {
     CapRun R(ctx, plan); gc = &R;
-    R.stream = make_caption_stream((uint64_t)plan.knob("stream_seed", 1), 1 + (int)absmod(plan.knob("frames", 40) - 1, 600), plan.knob("xds", 0) != 0);
+    R.stream = make_caption_stream((uint64_t)plan.knob("stream_seed", 1), 1 + (int)absmod(plan.knob("frames", 40) - 1, 600), plan.knob("xds", 0) != 0, plan.knob("t2", 0) != 0);
     if (plan.knob("ttx_pct", 0) > 0) add_teletext(R.stream, (uint64_t)plan.knob("stream_seed", 1), (int)absmod(plan.knob("ttx_pct", 0), 101), (int)absmod(plan.knob("ttx_fault_pct", 0), 101), ctx);
     if (plan.knob("gap_pct", 0) > 0) add_gaps(R.stream, (uint64_t)plan.knob("stream_seed", 1), (int)absmod(plan.knob("gap_pct", 0), 101), ctx);
     R.handler_fetches = plan.knob("handler_fetches", 0) != 0;
